@@ -231,6 +231,13 @@ def _deferred_by_interpretation(ctx, m):
     }
     # helpers by role: the call taking the nested test function as first argument builds the handler; the call taking
     # the reference string resolves it; the outermost call builds the type
+    # module-level helpers are interpreted, except the one that resolves the reference (it imports)
+    import builtins
+
+    funcs_of_module = {}
+    for n, g in m.module.funcs.items():
+        if g.parent is None and g.cls is None and not any(isinstance(x, ast.Call) and call_name(x) in ("importlib.import_module", "import_module", "__import__") for x in ast.walk(g.node)) and not any(isinstance(x, (ast.Import, ast.ImportFrom)) for x in ast.walk(g.node)):
+            funcs_of_module[n] = g.node
     nested = list(m.children.values())
     if len(nested) != 1:
         ctx.note(f"{m.key}: expected one nested class test; shape rule used instead")
@@ -240,13 +247,13 @@ def _deferred_by_interpretation(ctx, m):
         if isinstance(c, ast.Call) and isinstance(c.func, ast.Name):
             if c.args and isinstance(c.args[0], ast.Name) and c.args[0].id == chk.name:
                 genv[c.func.id] = handler_ctor
-            elif len(c.args) == 1 and isinstance(c.args[0], ast.Name) and c.args[0].id in m.params and c.func.id not in ("str", "repr"):
+            elif len(c.args) == 1 and isinstance(c.args[0], ast.Name) and c.args[0].id in m.params[1:] and c.func.id not in ("str", "repr") and c.func.id not in funcs_of_module:
                 genv[c.func.id] = getcls
     for c in ast.walk(m.node):
         if isinstance(c, ast.Call) and isinstance(c.func, ast.Name) and c.func.id not in genv and any(isinstance(a, ast.Call) and isinstance(a.func, ast.Name) and genv.get(a.func.id) is handler_ctor for a in c.args):
             genv[c.func.id] = lambda *a, **k: Record(kind="type")
     try:
-        hi = HostInterp({}, Record(), {}, globals_env=genv, classes={}, functions={})
+        hi = HostInterp({}, Record(), {}, globals_env=genv, classes={}, functions={k: v for k, v in funcs_of_module.items() if k not in genv})
         hi.call_function(m.node, [Record(kind="Deferred"), "pkg.sub.Cls"], {}, {})
         check = captured.get("check")
         if isinstance(check, Closure):
